@@ -1194,6 +1194,7 @@ mod tests {
 
 /// Verification harness (child module: reaches `Batcher` and validator internals). `--cfg ipa_verif` only.
 #[cfg(all(test, ipa_verif))]
+#[allow(warnings, clippy::all, clippy::pedantic)]
 pub(crate) mod verif_h3 {
     include!(concat!(env!("IPA_VERIF_DIR"), "/harness/h3_context.rs"));
 }
